@@ -35,13 +35,15 @@ IR (all JSON)
 ir = {"kind": "inherit"|"modules", "templates": {name: [node, ...] | {"broken": source}},
       "entries": [names], "globals": {name: value}, "modules": [names whose export set is checked]}
 
-expressions  ["c", const] ["n", name] ["cat", e, e] ["cond", test, e, e] ["call", name, [e..]] ["attr", name, attr]
+expressions  ["caller"]  (``caller()`` inside a macro invoked by a call block)
+             ["c", const] ["n", name] ["cat", e, e] ["cond", test, e, e] ["call", name, [e..]] ["attr", name, attr]
              ["mcall", name, attr, [e..]] ["super", depth] ["self", block] ["loopidx"] ["defd", e] ["not", e]
 statements   ["text", s] ["comment", s] ["out", e] ["probe", [names]] ["set", name, e] ["setblock", name, body]
              ["if", e, body, else_body] ["for", var, [const..], body] ["with", name, e, body]
              ["macro", name, [params], body] ["block", name, {"scoped":b, "required":b}, body]
              ["extends", e] ["include", target, {"ctx": None|True|False, "im": bool}]
              ["import", target, alias, ctx] ["from", target, [[name, alias|None]..], ctx]
+             ["callblock", macro, [e..], body] ["filter", "upper"|"default_D", body]
 targets      an expression, or ["names", [e..]] for a literal list
 data values  str / int / bool / None / list of these / {"$": "template", "name": n}
 """
@@ -91,6 +93,23 @@ class TplObj:
 
     def __init__(self, name):
         self.name = name
+
+
+class Caller:
+    """The ``caller`` of a call block: its body, closed over the frame the call block stands in."""
+
+    __slots__ = ("body", "frame")
+
+    def __init__(self, body, frame):
+        self.body, self.frame = body, frame
+
+
+def uses_caller(x):
+    if isinstance(x, list):
+        if len(x) == 1 and x[0] == "caller":
+            return True
+        return any(uses_caller(y) for y in x)
+    return False
 
 
 class Loop:
@@ -183,12 +202,10 @@ def find_blocks(body, acc=None):
         elif k == "if":
             find_blocks(n[2], acc)
             find_blocks(n[3], acc)
-        elif k in ("for", "with"):
+        elif k in ("for", "with", "macro", "callblock"):
             find_blocks(n[3], acc)
-        elif k == "setblock":
+        elif k in ("setblock", "filter"):
             find_blocks(n[2], acc)
-        elif k == "macro":
-            find_blocks(n[3], acc)
     return acc
 
 
@@ -363,6 +380,13 @@ class Interp:
             fn = self.getattr(self.lookup(e[1], frame), e[2], e[1])
             args = [self.ev(a, frame) for a in e[3]]
             return self.call(fn, args, e[2])
+        if k == "caller":
+            c = self.lookup("caller", frame)
+            if c is U:
+                raise TplError("UndefinedError", "caller is undefined")
+            if not isinstance(c, Caller):
+                raise Ambiguous("'caller' bound to data")
+            return self.run_caller(c)
         if k == "loopidx":
             lp = self.lookup("loop", frame)
             if lp is U:
@@ -388,7 +412,20 @@ class Interp:
             return obj.exports.get(attr, U)
         raise Ambiguous("attribute of %s" % type(obj).__name__)
 
-    def call(self, fn, args, what):
+    def run_caller(self, c):
+        f = c.frame
+        self.enter()
+        try:
+            sub = Frame(f.ctx, f.tname, scopes=f.scopes + [Scope({}, static_stores(c.body))], block=f.block, ok=f.ok, own=f.own)
+            sub.closure = True
+            sub.tl = f.tl
+            buf = []
+            self.body(c.body, sub, buf)
+            return "".join(buf)
+        finally:
+            self.depth -= 1
+
+    def call(self, fn, args, what, caller=None):
         if fn is U:
             raise TplError("UndefinedError", "%s is undefined" % what)
         if not isinstance(fn, Macro):
@@ -399,6 +436,12 @@ class Interp:
         try:
             scope = Scope({p: (args[i] if i < len(args) else U) for i, p in enumerate(fn.params)},
                           static_stores(fn.body) | set(fn.params))
+            if caller is not None:
+                if not uses_caller(fn.body):
+                    raise Ambiguous("call block on a macro without caller")
+                scope["caller"] = caller
+            elif uses_caller(fn.body):
+                scope["caller"] = U
             scopes = list(fn.scopes) + [scope]
             frame = Frame(fn.ctx, fn.tname, scopes=scopes, own=len(fn.scopes))
             frame.closure = True
@@ -529,6 +572,33 @@ class Interp:
             if not (frame.toplevel and len(frame.scopes) == 0):
                 self.events.add("nested_macro")
             self.assign(frame, n[1], m)
+        elif k == "callblock":
+            if frame.root is not None and frame.root.parent is not None:
+                self.events.add("stray_callblock_suppressed")
+                return
+            fn = self.lookup(n[1], frame)
+            args = [self.ev(a, frame) for a in n[2]]
+            self.events.add("callblock")
+            self.emit(frame, out, self.call(fn, args, n[1], caller=Caller(n[3], frame)))
+        elif k == "filter":
+            if frame.root is not None and frame.root.parent is not None:
+                self.events.add("stray_filterblock_suppressed")
+                return
+            sub = Frame(frame.ctx, frame.tname, scopes=frame.scopes + [Scope({}, static_stores(n[2]))], block=frame.block,
+                        ok=frame.ok, own=frame.own)
+            sub.closure = frame.closure
+            sub.tl = frame.tl
+            buf = []
+            self.body(n[2], sub, buf)
+            text = "".join(buf)
+            if n[1] == "upper":
+                text = text.upper()
+            elif n[1] == "default_D":
+                text = text if text else "D"
+            else:
+                raise ValueError("unknown filter %r" % (n[1],))
+            self.events.add("filterblock")
+            self.emit(frame, out, text)
         elif k == "block":
             self.block_site(n, frame, out)
         elif k == "extends":
